@@ -446,6 +446,19 @@ pub struct Scn14 {
     /// 0 exponential, 1 exponential random, 2 fixed
     pub kind: u8,
     pub attempts: u32,
+    /// Some(c): the backoff is a clone of a template whose other clone, capped at c microseconds,
+    /// has been asked for attempts 0..=200 before (clones must not share anything)
+    #[serde(default)]
+    pub sibling_cap_us: Option<u64>,
+}
+
+/// u64::MAX microseconds stands for Duration::MAX ("no cap" written as a cap)
+fn cap_dur(us: u64) -> Duration {
+    if us == u64::MAX {
+        Duration::MAX
+    } else {
+        Duration::from_micros(us)
+    }
 }
 
 const YEAR_MS: u64 = 365 * 24 * 3600 * 1000;
@@ -454,7 +467,7 @@ pub fn gen14(rng: &mut Rng, tier: Tier) -> Scn14 {
     let via = rng.below(2) as u8;
     let kind = *rng.pick(&[0u8, 0, 0, 1, 2]);
     let initial_us = *rng.pick(&[0u64, 1_000, 100_000, 100_000, 1_000_000, 3_600_000_000, 86_400_000_000]);
-    let max_us = *rng.pick(&[None, Some(50_000u64), Some(5_000_000), Some(5_000_000), Some(3_600_000_000), Some(30 * 86_400_000_000)]);
+    let max_us = *rng.pick(&[None, Some(50_000u64), Some(5_000_000), Some(5_000_000), Some(3_600_000_000), Some(30 * 86_400_000_000), Some(u64::MAX)]);
     // reconnect's exponential constructors always use multiplier 2 and a cap
     let mult_tenths = if via == 0 { 2000 } else { *rng.pick(&[1000u32, 1001, 1010, 1020, 1500, 2000, 2000, 3000, 10_000]) };
     let max_us = if via == 0 && kind != 2 { Some(max_us.unwrap_or(5_000_000)) } else { max_us };
@@ -462,27 +475,43 @@ pub fn gen14(rng: &mut Rng, tier: Tier) -> Scn14 {
         Tier::Quick => *rng.pick(&[20u32, 80, 80, 200, 1100]),
         Tier::Thorough => *rng.pick(&[80u32, 200, 1100, 1100, 10_000]),
     };
-    Scn14 { via, initial_us, mult_tenths, max_us, rf_eighths: *rng.pick(&[0u32, 2, 4, 8]), kind, attempts }
+    let rf_eighths = *rng.pick(&[0u32, 2, 4, 8]);
+    let sibling_cap_us = if via == 1 && kind != 2 && rng.chance(1, 3) { Some(*rng.pick(&[1_000u64, 50_000, 1_000_000])) } else { None };
+    Scn14 { via, initial_us, mult_tenths, max_us, rf_eighths, kind, attempts, sibling_cap_us }
 }
 
 pub fn valid14(s: &Scn14) -> bool {
-    s.via <= 1 && s.kind <= 2 && s.initial_us <= 86_400_000_000 && s.mult_tenths >= 1000 && s.mult_tenths <= 10_000 && s.rf_eighths <= 8 && s.attempts >= 1 && s.attempts <= 10_000 && (s.via == 1 || s.kind == 2 || s.max_us.is_some()) && (s.via == 1 || s.mult_tenths == 2000)
+    s.via <= 1 && s.kind <= 2 && s.initial_us <= 86_400_000_000 && s.mult_tenths >= 1000 && s.mult_tenths <= 10_000 && s.rf_eighths <= 8 && s.attempts >= 1 && s.attempts <= 10_000 && (s.via == 1 || s.kind == 2 || s.max_us.is_some()) && (s.via == 1 || s.mult_tenths == 2000) && (s.sibling_cap_us.is_none() || (s.via == 1 && s.kind != 2))
 }
 
 fn build_backoff(s: &Scn14) -> Arc<dyn IntervalFunction> {
     let init = Duration::from_micros(s.initial_us);
     match s.kind {
         0 => {
-            let mut b = ExponentialBackoff::new(init).multiplier(s.mult_tenths as f64 / 1000.0);
+            let template = ExponentialBackoff::new(init).multiplier(s.mult_tenths as f64 / 1000.0);
+            if let Some(c) = s.sibling_cap_us {
+                let sibling = template.clone().max_interval(Duration::from_micros(c));
+                for a in 0..=200 {
+                    let _ = sibling.next_interval(a);
+                }
+            }
+            let mut b = template.clone();
             if let Some(m) = s.max_us {
-                b = b.max_interval(Duration::from_micros(m));
+                b = b.max_interval(cap_dur(m));
             }
             Arc::new(b)
         }
         1 => {
-            let mut b = ExponentialRandomBackoff::new(init, s.rf_eighths as f64 / 8.0).multiplier(s.mult_tenths as f64 / 1000.0);
+            let template = ExponentialRandomBackoff::new(init, s.rf_eighths as f64 / 8.0).multiplier(s.mult_tenths as f64 / 1000.0);
+            if let Some(c) = s.sibling_cap_us {
+                let sibling = template.clone().max_interval(Duration::from_micros(c));
+                for a in 0..=200 {
+                    let _ = sibling.next_interval(a);
+                }
+            }
+            let mut b = template.clone();
             if let Some(m) = s.max_us {
-                b = b.max_interval(Duration::from_micros(m));
+                b = b.max_interval(cap_dur(m));
             }
             Arc::new(b)
         }
@@ -532,8 +561,8 @@ pub fn run14(s: &Scn14, ctx: &mut RunCtx) -> RunOutput {
         });
         let make: Box<dyn FnOnce() -> LocalFut> = if scn.via == 0 {
             let policy = match scn.kind {
-                0 => ReconnectPolicy::exponential(Duration::from_micros(scn.initial_us), Duration::from_micros(scn.max_us.unwrap_or(5_000_000))),
-                1 => ReconnectPolicy::exponential_random(Duration::from_micros(scn.initial_us), Duration::from_micros(scn.max_us.unwrap_or(5_000_000)), scn.rf_eighths as f64 / 8.0),
+                0 => ReconnectPolicy::exponential(Duration::from_micros(scn.initial_us), cap_dur(scn.max_us.unwrap_or(5_000_000))),
+                1 => ReconnectPolicy::exponential_random(Duration::from_micros(scn.initial_us), cap_dur(scn.max_us.unwrap_or(5_000_000)), scn.rf_eighths as f64 / 8.0),
                 _ => ReconnectPolicy::fixed(Duration::from_micros(scn.initial_us)),
             };
             let layer = ReconnectLayer::new(ReconnectConfig::builder().policy(policy).unlimited_attempts().build());
@@ -682,9 +711,12 @@ impl Prop for C14 {
         let attempts: Vec<usize> = vec![0, 1, 10, 67, 68, 100, 1_000, 10_000, 100_000, 1 << 20, (i32::MAX as usize) - 1, i32::MAX as usize, (i32::MAX as usize) + 1, u32::MAX as usize, (u32::MAX as usize) + 1, usize::MAX - 1, usize::MAX];
         for initial_us in [0u64, 1_000, 100_000, 1_000_000, 86_400_000_000] {
             for mult_tenths in [1000u32, 1010, 1500, 2000, 10_000] {
-                for max_us in [None, Some(50_000u64), Some(5_000_000), Some(30 * 86_400_000_000)] {
-                    for kind in [0u8, 1] {
-                        let s = Scn14 { via: 1, initial_us, mult_tenths, max_us, rf_eighths: 4, kind, attempts: 1 };
+                for max_us in [None, Some(50_000u64), Some(5_000_000), Some(30 * 86_400_000_000), Some(u64::MAX)] {
+                    for kind in [0u8, 1, 2, 3] {
+                        // kinds 2 and 3: the same two backoffs as clones of a template with a used sibling
+                        let sibling_cap_us = if kind >= 2 { Some(1_000u64) } else { None };
+                        let kind = kind % 2;
+                        let s = Scn14 { via: 1, initial_us, mult_tenths, max_us, rf_eighths: 4, kind, attempts: 1, sibling_cap_us };
                         let f = build_backoff(&s);
                         let mut prev: Option<Duration> = None;
                         for a in attempts.iter() {
@@ -695,7 +727,7 @@ impl Prop for C14 {
                                     vs.push(Violation { rule: "C14.no_panic".into(), class: "direct_probe".into(), msg: format!("next_interval({}) panicked for {:?}", a, s) });
                                 }
                                 Ok(d) => {
-                                    if let Some(c) = max_us {
+                                    if let Some(c) = max_us.filter(|c| *c != u64::MAX) {
                                         let lim = Duration::from_micros(c).mul_f64(if kind == 1 { 1.5 } else { 1.0 }) + Duration::from_nanos(1000);
                                         if d > lim {
                                             vs.push(Violation { rule: "C14.cap".into(), class: "direct_probe".into(), msg: format!("next_interval({}) = {:?} above max_interval for {:?}", a, d, s) });
@@ -719,12 +751,21 @@ impl Prop for C14 {
         // ReconnectPolicy constructors
         for a in attempts.iter() {
             for p in [ReconnectPolicy::default(), ReconnectPolicy::exponential(Duration::from_millis(100), Duration::from_secs(5)), ReconnectPolicy::exponential_random(Duration::from_millis(100), Duration::from_secs(5), 0.5), ReconnectPolicy::fixed(Duration::from_secs(1)), ReconnectPolicy::none()] {
+                // (policies capped at Duration::MAX are probed below)
                 probed += 1;
                 let r = std::panic::catch_unwind(std::panic::AssertUnwindSafe(|| p.delay_for_attempt(*a)));
                 match r {
                     Err(_) => vs.push(Violation { rule: "C14.no_panic".into(), class: "direct_probe".into(), msg: format!("{:?}.delay_for_attempt({}) panicked", p, a) }),
                     Ok(Some(d)) if d > Duration::from_millis(7501) => vs.push(Violation { rule: "C14.cap".into(), class: "direct_probe".into(), msg: format!("{:?}.delay_for_attempt({}) = {:?}", p, a, d) }),
                     _ => {}
+                }
+            }
+        }
+        for a in attempts.iter() {
+            for p in [ReconnectPolicy::exponential(Duration::from_millis(100), Duration::MAX), ReconnectPolicy::exponential_random(Duration::from_millis(100), Duration::MAX, 0.5)] {
+                probed += 1;
+                if std::panic::catch_unwind(std::panic::AssertUnwindSafe(|| p.delay_for_attempt(*a))).is_err() {
+                    vs.push(Violation { rule: "C14.no_panic".into(), class: "direct_probe".into(), msg: format!("{:?}.delay_for_attempt({}) panicked", p, a) });
                 }
             }
         }
